@@ -540,6 +540,9 @@ def run_shard(sh):
             check_exact(case, acc)
         acc.sample({"kind": "exact", "backend": "cirq", "prep": prep, "init": sh["init"], "op": ops[0]}, cap=1)
     elif k == "exact_meas":
+        if sh["mi"] == 0:
+            acc.caps.append("measured preparations, sympy and finite-shot families use a deterministic sub-list of the 915 operators "
+                            "(every 2nd..7th); the exact cirq family covers the full operator x preparation product")
         prep = M[sh["mi"]]
         n = width_of(prep)
         nm = SV.n_measures(prep["w"])
